@@ -200,12 +200,14 @@ impl<T: Evaluate> Evaluate for Piecewise<T> {
 impl<T: Evaluate> Piecewise<T> {
 //@extract file=src/piecewise.rs impl="impl<T: Evaluate> Piecewise<T>" fn=evaluate_v props=C12,C16 ret=out closure="xs.into_iter().map(move |x| {" state=prev_seg wrapsha=842a1ed05994ee4f stepsig="fn evaluate_v_step(&self, prev_seg0: usize, x: f64, Ghost(seen): Ghost<bool>, Ghost(m): Ghost<f64>) -> (out: (f64, usize))"
 //@contract
-        requires self.wf(), sorted_ends(self.segments@), ev_inv(self.segments@, prev_seg0 as int, seen, m), !nan(x),
-        ensures ev_inv(self.segments@, out.1 as int, true, runmax(seen, m, x)),            // the cursor is the segment direct evaluation selects for the running maximum
-                out.0 == self.segments@[out.1 as int].poly.ev(x),                            // evaluated at the argument itself
-                !(seen && fgt(m, x)) ==> out.0 == self.ev(x),                              // non-decreasing so far: exactly what direct evaluation returns
+        requires self.wf(), prev_seg0 < self.segments@.len(),        // nothing else is needed for the absence of panics (C16): any f64 x, NaN included
+        ensures out.1 < self.segments@.len(),
+                (sorted_ends(self.segments@) && ev_inv(self.segments@, prev_seg0 as int, seen, m) && !nan(x)) ==> (
+                    ev_inv(self.segments@, out.1 as int, true, runmax(seen, m, x))              // the cursor is the segment direct evaluation selects for the running maximum
+                    && out.0 == self.segments@[out.1 as int].poly.ev(x)                          // evaluated at the argument itself
+                    && (!(seen && fgt(m, x)) ==> out.0 == self.ev(x))),                          // non-decreasing so far: exactly what direct evaluation returns
 //@sub self.segments[prev_seg..] =====> { let ghost s = self.segments@; let ghost p0 = prev_seg as int; let __sl = &self.segments[prev_seg..]; let mut __it = __sl
-//@sub .position(|seg| x < seg.end) =====> ; let ghost __rem = __it.remaining(); let __p = __it.position(|seg: &Segment<T>| -> (b: bool) ensures b == flt(x, seg.end) { x < seg.end }); proof { assert(__sl@ == s.subrange(p0, s.len() as int)); match __p { Some(k) => { assert forall|j: int| p0 <= j < p0 + k implies !flt(x, #[trigger] s[j].end) by { assert(*__rem[j - p0] == s[j]); } assert(*__rem[k as int] == s[p0 + k]); lemma_step_found(s, p0, seen, m, x, k as int); } None => { assert forall|j: int| p0 <= j < s.len() implies !flt(x, #[trigger] s[j].end) by { assert(*__rem[j - p0] == s[j]); } lemma_step_none(s, p0, seen, m, x); } } } __p }
+//@sub .position(|seg| x < seg.end) =====> ; let ghost __rem = __it.remaining(); let __p = __it.position(|seg: &Segment<T>| -> (b: bool) ensures b == flt(x, seg.end) { x < seg.end }); proof { assert(__sl@ == s.subrange(p0, s.len() as int)); if sorted_ends(s) && ev_inv(s, p0, seen, m) && !nan(x) { match __p { Some(k) => { assert forall|j: int| p0 <= j < p0 + k implies !flt(x, #[trigger] s[j].end) by { assert(*__rem[j - p0] == s[j]); } assert(*__rem[k as int] == s[p0 + k]); lemma_step_found(s, p0, seen, m, x, k as int); } None => { assert forall|j: int| p0 <= j < s.len() implies !flt(x, #[trigger] s[j].end) by { assert(*__rem[j - p0] == s[j]); } lemma_step_none(s, p0, seen, m, x); } } } } __p }
 //@sub |i| i + prev_seg =====> |i: usize| -> (o: usize) requires i + prev_seg < usize::MAX ensures o == i + prev_seg { i + prev_seg }
 //@end
 }
